@@ -1,12 +1,12 @@
 SPECIFICATION Spec
-CONSTANTS MaxVer = 2
-          MaxParts = 2
+CONSTANTS MaxVer = 3
+          MaxParts = 1
           MaxCrash = 1
           MaxGrow = 1
-          TornHeader = TRUE
+          TornHeader = FALSE
           SyncBeforeFlip = TRUE
           PickNewer = TRUE
-          SavepointTwoPhase = FALSE
-          SavepointPreFlush = TRUE
+          SavepointTwoPhase = TRUE
+          SavepointPreFlush = FALSE
 INVARIANTS TypeOK RecoveryOk PrimaryServable AckedDurable
 CHECK_DEADLOCK FALSE
